@@ -152,6 +152,11 @@ def _s_writefile(ctx, S):
     wr = [c for c in walk_local(fw) if isinstance(c, ast.Call) and call_attr(c) == "write" and c.args and src(c.args[0]) == pw[2]]
     ctx.check(ok and len(wr) == 1, "writefile/writes-given-path-and-closes", Q + "._writeFile",
               "_writeFile does not open exactly the given path for binary writing inside a with block and write the data once")
+    for o in opens:
+        unbuf = (len(o.args) >= 3 and src(o.args[2]) == "0") or any(k.arg == "buffering" and src(k.value) == "0" for k in o.keywords)
+        ctx.check(not unbuf, "writefile/buffered-handle", ctx.construct(Q + "._writeFile", "open(<temporary>, 'wb')"),
+                  "the temporary is opened unbuffered: a single f.write() becomes one raw write(2) whose short count is ignored - a truncated value is then renamed "
+                  "into place as if complete (a buffered handle retries and raises)")
 
 
 
@@ -271,13 +276,31 @@ def _s_who(ctx, S):
             if not isinstance(c, ast.Call):
                 continue
             nm = call_attr(c)
+            recv = src(c.func.value) if isinstance(c.func, ast.Attribute) else ""
             lowlevel = (nm in ("remove", "moveTo", "rename", "unlink", "setContent", "_writeFile", "rmtree") or
+                        (nm in ("copyTo", "linkTo", "touch", "create", "copy", "copy2", "copyfile", "copytree", "move", "replace", "renames", "removedirs") and
+                         recv not in ("self", "") and (recv.split(".")[0] in ("self", "os", "shutil") or "_dnamePath" in recv or ".child(" in recv)) or
                         (call_name(c) in ("_open", "open") and len(c.args) >= 2 and any(ch in src(c.args[1]) for ch in "wa+")))
             if lowlevel:
                 nsites += 1
                 ctx.check(name in ("__init__", "__setitem__", "__delitem__", "_writeFile"), "who-may-mutate/directory", ctx.construct(f"{Q}.{name}", c),
                           f"{name} changes files of the database directly (bypassing the write-temporary-then-rename protocol)")
     ctx.floor("who-may-mutate/directory", nsites, 6, "filesystem-mutating call sites")
+    # bulk operations store every value through the item protocol of the destination (so each entry gets the temporary + rename treatment)
+    for mname, dest in (("copyTo", None), ("update", "self"), ("setdefault", "self")):
+        fm = ctx.func(DB, "DirDBM." + mname)
+        stores = [n for n in ast.walk(fm) if isinstance(n, ast.Assign) and any(isinstance(t, ast.Subscript) and isinstance(t.value, ast.Name) for t in n.targets)]
+        okb = bool(stores)
+        if okb and mname == "copyTo":
+            d_ = next(t.value.id for n in stores for t in n.targets if isinstance(t, ast.Subscript) and isinstance(t.value, ast.Name))
+            dd = [v for v in local_defs(fm, track_mutation=False).get(d_, []) if v is not None]
+            okb = bool(dd) and all(isinstance(v, ast.Call) and ("__class__" in src(v.func) or call_attr(v) in ("DirDBM", "Shelf")) for v in dd) and \
+                any(isinstance(n.value, ast.Subscript) and src(n.value.value) == "self" for n in stores)
+        elif okb:
+            okb = any(src(t.value) == dest for n in stores for t in n.targets if isinstance(t, ast.Subscript))
+        ctx.check(okb, "bulk/through-item-protocol", f"{Q}.{mname}",
+                  f"{mname} does not store its values through `<dirdbm>[key] = value`: entries are written under their final names without the temporary + rename "
+                  f"protocol, so a crash leaves a partial value visible as data")
     fdl = ctx.func(DB, "DirDBM.__delitem__")
     rm = [c for c in ast.walk(fdl) if isinstance(c, ast.Call) and call_attr(c) in MUTATORS]
     ctx.check(len(rm) == 1 and call_attr(rm[0]) == "remove" and "self._dnamePath.child(" in rsrc(rm[0].func.value, local_defs(fdl, track_mutation=False)), "delitem/single-atomic-remove", Q + ".__delitem__",
@@ -322,6 +345,10 @@ MUTANTS = [
     Mutant("move-inside-try", DB, "        try:\n            self._writeFile(new, v)\n        except BaseException:\n            new.remove()\n            raise\n        else:\n            if old.exists():\n                old.remove()\n            new.moveTo(old)",
            "        try:\n            if old.exists():\n                old.remove()\n            self._writeFile(new, v)\n            new.moveTo(old)\n        except BaseException:\n            new.remove()\n            raise",
            expect_rule="setitem/old-destroyed-only-after-write"),
+    Mutant("copyTo-copies-files-directly", DB, "        for k in self.keys():\n            d[k] = self[k]\n        return d", "        for name in self._dnamePath.listdir():\n            self._dnamePath.child(name).copyTo(d._dnamePath.child(name))\n        return d",
+           expect_rule="who-may-mutate/directory"),
+    Mutant("writeFile-unbuffered", DB, "        with _open(path.path, \"wb\") as f:\n            f.write(data)", "        with _open(path.path, \"wb\", 0) as f:\n            f.write(data)",
+           expect_rule="writefile/buffered-handle"),
     Mutant("new-recovery-renames", DB, "            for f in glob.glob(self._dnamePath.child(\"*.new\").path):\n                os.remove(f)", "            for f in glob.glob(self._dnamePath.child(\"*.new\").path):\n                os.rename(f, f[:-4])",
            expect_rule="recovery/new-deleted"),
 ]
